@@ -91,6 +91,17 @@ func runCompile(args []*Sexp) (out *Sexp) {
 			return L(A("err"), A(errClass(err)))
 		}
 		return L(A("ok"), bytecodeFns(bc))
+	case "evalfail":
+		// a session in which an earlier script failed to compile after importing modules
+		ev := ugo.NewEval(opts, nil)
+		if _, _, err := ev.Run(context.Background(), []byte("q0 := import(\"m1\")\nq1 := import(\"time\")\nq2 := import(\"nosuchmodule\")")); err == nil {
+			return L(A("err"), A("evalfail-setup"))
+		}
+		_, bc, err := ev.Run(context.Background(), src)
+		if bc == nil && err != nil {
+			return L(A("err"), A(errClass(err)))
+		}
+		return L(A("ok"), bytecodeFns(bc))
 	case "reuse":
 		st := ugo.NewSymbolTable()
 		opts.SymbolTable = st
